@@ -542,7 +542,8 @@ def run_prep(case: Dict[str, Any]) -> Dict[str, Any]:
         options = update_config({
             "cpus": cpus, "reuse_results": False, "skip_sanitisation": False,
             "allow_long_headers": bool(case.get("allow_long_headers", False)),
-            "limit_to_record": "", "minlength": case.get("minlength", 10), "limit": -1, "taxon": "bacteria",
+            "limit_to_record": case.get("limit_to_record", ""), "minlength": case.get("minlength", 10),
+            "limit": case.get("limit", -1), "taxon": "bacteria",
             "genefinding_tool": "fake", "genefinding_gff3": "", "triggered_limit": False})
         try:
             records = [build_record(spec) for spec in case["records"]]
@@ -560,6 +561,8 @@ def run_prep(case: Dict[str, Any]) -> Dict[str, Any]:
         out["recs"] = [[r.id, r.name, r.original_id] for r in obs["ret"]]
         out["recs_one_cpu"] = [[r.id, r.name, r.original_id] for r in reference["ret"]]
         out["skips"] = [r.skip for r in obs["ret"]]
+        out["lens"] = [len(r.seq) for r in obs["ret"]]
+        out["real"] = [any(c in "ACGT" for c in str(r.seq)) for r in obs["ret"]]
         out["cds"] = [len(r.get_cds_features()) for r in obs["ret"]]
         if out["recs"] != out["recs_one_cpu"]:
             out["problems"].insert(0, f"identifiers with {case['cpus']} cpus {[r[0] for r in out['recs']]} vs "
